@@ -570,6 +570,34 @@ func (g *gen) ifaceConv(v string, from, to types.Type, sub tsubst, content bool)
 	return ""
 }
 
+// ifaceOf: the Variable turning a concrete value (the pointee, for a non-nil
+// pointer) into the content of the opaque interface type `to`.
+func (g *gen) ifaceOf(concrete, to types.Type, sub tsubst) string {
+	concrete, to = resolve(concrete, sub), resolve(to, sub)
+	cp := types.TypeString(concrete, nil)
+	tp := g.opaquePath(to, sub)
+	key := "upc:" + cp + "->" + tp
+	it, ok := g.byItem[key]
+	if !ok {
+		elem := concrete
+		if p, isPtr := concrete.(*types.Pointer); isPtr {
+			elem = p.Elem()
+		}
+		fe, te := g.typ(elem, sub), g.opaqueContent(to, sub)
+		it = g.begin("oracle", key, "conversion "+cp+" -> "+tp)
+		g.protect(it, func() {
+			pre := "up_"
+			if _, isPtr := concrete.(*types.Pointer); isPtr {
+				pre = "up_ptr_"
+			}
+			it.name = g.claim(key, pre+coqIdent(strings.Trim(fe, "()"))+"__"+te)
+			it.text = fmt.Sprintf("(* a (non-nil) value of type %s used as a %s: the interface value is a function of the current pointee *)\nVariable %s : %s -> %s.", cmt(cp), cmt(tp), it.name, fe, te)
+			g.note("a " + cp + " converted to " + tp + " is a snapshot of its pointee (later writes through the pointer are not seen through the interface value)")
+		})
+	}
+	return g.use(it).name
+}
+
 // opaqueContent: the Coq type of the (non-nil) content of an opaque / nilable opaque interface type.
 func (g *gen) opaqueContent(t types.Type, sub tsubst) string {
 	if g.kind(t, sub) == kNilable {
